@@ -11,8 +11,8 @@
 From Coq Require Import List NArith Bool.
 From Coq Require Import Strings.Byte.
 From HN Require Import Base.Bytes Base.Keyed Model.TotalBase Model.TotalTcpOpt Model.TotalMisc Model.TotalReader
-  Model.TotalH2 Model.TotalRaw Model.TotalLink Spec.TotalSpec
-  Proofs.TotalTcpOptProofs Proofs.TotalH2Proofs Proofs.TotalLinkProofs Proofs.TotalAllProofs Proofs.TotalRecoverProofs.
+  Model.TotalH2 Model.TotalRaw Model.TotalLink Model.TotalTlsFlow Spec.TotalSpec
+  Proofs.TotalTcpOptProofs Proofs.TotalH2Proofs Proofs.TotalLinkProofs Proofs.TotalTlsFlowProofs Proofs.TotalAllProofs Proofs.TotalRecoverProofs.
 Import ListNotations.
 Open Scope N_scope.
 
@@ -238,6 +238,48 @@ Proof. intros. apply detect_datalink_format_total. Qed.
 Check C01_nopanic_detect_datalink :
   forall frame : bytes, detect_datalink_format frame <> Panic.
 Print Assumptions C01_nopanic_detect_datalink.
+
+(* TLS analyzer flow table (process.rs process_tcp_packet + is_tls_traffic) around the reader: total for every table, flow and payload *)
+Theorem C01_nopanic_tls_flow :
+  forall (parse : bytes -> pres) (t : ftable) (f : N) (payload : bytes),
+    tls_step parse t f payload <> Panic /\ tls_step parse t f payload <> OutOfFuel.
+Proof. intros. apply tls_step_total. Qed.
+Check C01_nopanic_tls_flow :
+  forall (parse : bytes -> pres) (t : ftable) (f : N) (payload : bytes),
+    tls_step parse t f payload <> Panic /\ tls_step parse t f payload <> OutOfFuel.
+Print Assumptions C01_nopanic_tls_flow.
+
+(* no poisoning of a 4-tuple: when the reader returned an error (or a signature) the flow is removed from the table ... *)
+Theorem C01_tls_flow_error_forgets :
+  forall (parse : bytes -> pres) (t : ftable) (f : N) (p : bytes) (t' : ftable) (rep : bool) (o : rout),
+    tls_step parse t f p = Ok (t', rep, Some o) -> o <> RNone -> ffind t' f = None.
+Proof. exact tls_step_forgets. Qed.
+Check C01_tls_flow_error_forgets :
+  forall (parse : bytes -> pres) (t : ftable) (f : N) (p : bytes) (t' : ftable) (rep : bool) (o : rout),
+    tls_step parse t f p = Ok (t', rep, Some o) -> o <> RNone -> ffind t' f = None.
+Print Assumptions C01_tls_flow_error_forgets.
+
+(* ... so the next segment on that same 4-tuple is reported exactly as on a table that never saw the flow (the reader itself keeps the bad record on Err: C01_nopanic_reader's model; the removal is what recovers) *)
+Theorem C01_tls_flow_recovers_same_flow :
+  forall (parse : bytes -> pres) (t : ftable) (f : N) (bad : bytes) (t' : ftable) (rep : bool) (p : bytes),
+    tls_step parse t f bad = Ok (t', rep, Some RErr) ->
+    exists t1 t2 out ro, tls_step parse t' f p = Ok (t1, out, ro) /\ tls_step parse (fremove t f) f p = Ok (t2, out, ro).
+Proof. exact tls_recovers_same_flow. Qed.
+Check C01_tls_flow_recovers_same_flow :
+  forall (parse : bytes -> pres) (t : ftable) (f : N) (bad : bytes) (t' : ftable) (rep : bool) (p : bytes),
+    tls_step parse t f bad = Ok (t', rep, Some RErr) ->
+    exists t1 t2 out ro, tls_step parse t' f p = Ok (t1, out, ro) /\ tls_step parse (fremove t f) f p = Ok (t2, out, ro).
+Print Assumptions C01_tls_flow_recovers_same_flow.
+
+(* and a segment never touches another flow *)
+Theorem C01_tls_flow_others_untouched :
+  forall (parse : bytes -> pres) (t : ftable) (f : N) (p : bytes) (t' : ftable) (rep : bool) (o : option rout) (g : N),
+    tls_step parse t f p = Ok (t', rep, o) -> (g =? f) = false -> ffind t' g = ffind t g.
+Proof. exact tls_step_other_flows. Qed.
+Check C01_tls_flow_others_untouched :
+  forall (parse : bytes -> pres) (t : ftable) (f : N) (p : bytes) (t' : ftable) (rep : bool) (o : option rout) (g : N),
+    tls_step parse t f p = Ok (t', rep, o) -> (g =? f) = false -> ffind t' g = ffind t g.
+Print Assumptions C01_tls_flow_others_untouched.
 
 (* recovery, generic over every keyed analyzer (state confined to the slot of the connection identity;
    identity = None for frames from which none can be read): after ANY history whose inputs never carry the
